@@ -2,7 +2,7 @@
 # usage: tools/seedtest.sh <seeded-dir> <property> [<property>...]
 # Applies the seeded change to /repo, runs the quick checks, undoes it.
 set -u
-dir=$1; shift
+dir=$(realpath "$1"); shift
 cd /repo || exit 2
 if ! git diff --quiet; then echo "/repo has uncommitted changes"; exit 2; fi
 git apply "$dir/patch.diff" || { echo "patch does not apply"; exit 2; }
